@@ -183,7 +183,7 @@ func driveMain(fs *flag.FlagSet, args []string) {
 					}
 					of := filepath.Join(*scratch, fmt.Sprintf("%s-cold-%d.json", p.ID, j))
 					args := []string{"work", "-prop", p.ID, "-tier", *tier, "-seed", strconv.FormatUint(*seed, 10), "-w", "0", "-W", "1",
-						"-from", strconv.Itoa(coldBase + j), "-to", strconv.Itoa(coldBase + j + 1), "-out", of, "-known", *known, "-sweep", "0", "-force", strings.Join(fv, ",")}
+						"-from", strconv.Itoa(coldBase + j), "-to", strconv.Itoa(coldBase + j + 1), "-out", of, "-known", *known, "-sweep", "0", "-force", strings.Join(fv, ","), "-cold"}
 					cmd := exec.Command(exe, args...)
 					cmd.Env = append(os.Environ(), "GOMAXPROCS=1", "GOTRACEBACK=single")
 					if b, err := cmd.CombinedOutput(); err != nil {
@@ -312,7 +312,7 @@ func driveMain(fs *flag.FlagSet, args []string) {
 			}
 			name += "-" + sanitize(strings.TrimPrefix(v.Class, p.ID+"/")) + "-" + sanitize(v.Key)
 			final := filepath.Join(*replays, p.ID, name+".json")
-			rf := ReplayFile{Property: p.ID, Tier: *tier, BaseSeed: *seed, RunIndex: u.Idx, SweepK: u.K, Class: v.Class, Key: v.Key, Msg: v.Msg, Tape: u.Tape, OrigTapeLen: len(u.Tape)}
+			rf := ReplayFile{Cold: u.Idx >= 1<<28, Property: p.ID, Tier: *tier, BaseSeed: *seed, RunIndex: u.Idx, SweepK: u.K, Class: v.Class, Key: v.Key, Msg: v.Msg, Tape: u.Tape, OrigTapeLen: len(u.Tape)}
 			if err := writeJSON(raw, &rf); err != nil {
 				die2("%v", err)
 			}
